@@ -50,7 +50,14 @@ def check(run):
             notes.append("deadline: %s not run" % name)
             return False
         t0 = run.elapsed()
-        fn()
+        try:
+            fn()
+        except core.InfraError as e:
+            # a stage that cannot be built AFTER violations were recorded (typically: a call the probes already reported as
+            # refused is also used by the value sweep) must not turn the run into "no verdict"
+            if not run.violations:
+                raise
+            notes.append("%s aborted after violations were recorded: %s" % (name, str(e)[:200]))
         wall[name] = round(run.elapsed() - t0, 1)
         return True
 
@@ -68,6 +75,8 @@ def check(run):
     if "c" in parts:
         stage("c_domain", 0, lambda: mth.prepare(g))
         stage("c_sweep_" + g.name, 0, lambda: mth.sweep(g))
+        for x in cfgs[:2]:
+            stage("c_constexpr_" + x.name, 0, lambda: mth.constexpr_stage(x))
     # thorough extras, as the budget allows: second sweep build, then the four remaining probe configurations
     for x in extra:
         if "a" in parts:
@@ -93,17 +102,30 @@ def check(run):
         "distinct_nontrivial": int(a.get("instances_with_both_round_directions", 0) + b.get("unit_pairs_with_both_verdicts", 0)
                                    + c.get("instances_with_both_outcomes", 0)),
         "rule": ("(a) rounding instances = (source unit, target unit) pairs with integer, reciprocal, rational and irrational "
-                 "ratios (Quantity) and affine pairs (QuantityPoint) x source rep x explicit output rep; values = every "
+                 "ratios (Quantity) and affine pairs (QuantityPoint) x source rep (quick: int32_t, double, float on every pair "
+                 "plus one of int64_t, int16_t, uint8_t, long double, uint64_t, int8_t, uint16_t, uint32_t rotating over the "
+                 "pairs; thorough: all eleven) x three explicit output reps; an instance that does not compile is a violation; "
+                 "values = every "
                  "integer in +-2^16 (integral reps, and as float/double), every half-integer in +-2^16, k / k+-0.5 and their "
                  "+-1,+-2 ulp neighbours at anchor integers incl. 2^24 and 2^53, the pre-images of those under the conversion, "
                  "tiny and huge-but-finite values; all 12 functions per value; oracle = long double value of x*ratio+offset with "
                  "constants from the Python model, every reported violation re-decided in exact rational / 90-digit arithmetic. "
-                 "(b) every (SI prefix on seconds) x (SI prefix on hertz) pair, both directions, six reps: accept/reject probes "
-                 "of the implicit-rep form against the model, explicit-rep twins; accepted instances: x in +-2^16 against "
-                 "trunc(K/x) in 128-bit integers and the round trip for all n in 1..1000. (c) sin/cos/tan/arc*/hypot/fmod/"
-                 "remainder/abs/copysign/min/max/clamp/isnan over unit pairs x rep pairs (both orders of narrow/wide) x "
-                 "structured value grids against the std function applied to model-converted operands; result unit read out "
-                 "as prime factorisation and compared with the model's common unit. Non-trivial = rounding instances on which "
+                 "(b) every (SI prefix on seconds) x (SI prefix on hertz) pair, both directions, reps int32_t, int64_t, "
+                 "uint32_t, int16_t, uint8_t, double on every pair and uint64_t, float (thorough also int8_t, uint16_t, long "
+                 "double) on one pair per (direction, K) (thorough: every pair): accept/reject probes of the implicit-rep form "
+                 "against the model, explicit-rep twins, explicit forms with a target rep wider than the source rep (int64_t, "
+                 "double from int16_t/uint8_t/int32_t/uint32_t) must compile; accepted instances: x in +-2^16, x in {K-1, K, "
+                 "K+1, -K, -K-1, 1-K, K/2, K/2+1, K/3, max, max-1, min, min+1} of the rep against trunc(K/x) in 128-bit "
+                 "integers, the wider-target forms on the sub-lattice |x| <= 4096 or 257 | x or |x| > 2^16, int64_t / double / "
+                 "int32_t sources into a narrower or floating target, and the round trip for all n in 1..1000. (c) sin/cos/tan/"
+                 "arc*/hypot/fmod/remainder/abs/copysign/min/max/clamp/isnan over unit pairs (incl. identical units and "
+                 "identical types: the same-type overloads / hidden friends) x rep pairs (both orders of narrow/wide, long "
+                 "double and small integral reps for the raw-argument wrappers) x structured value grids against the std "
+                 "function applied to model-converted operands; operand pairs with an irrational ratio (radians/degrees/"
+                 "revolutions, floating reps and integral reps for the std-function wrappers) against the long double value with "
+                 "a tolerance; result unit read out as prime factorisation and compared with the model's common unit; a "
+                 "call that no conversion policy may refuse and that does not compile is a violation; 24 static_assert uses of "
+                 "inverse_*/min/max/clamp with hand-computed values under both corner configurations. Non-trivial = rounding instances on which "
                  "round_in went both up and down + inversion unit pairs with both an accepted and a rejected rep + cmath "
                  "instances on which the judged result took more than one branch/sign."),
         "exhaustive": not notes,
@@ -117,17 +139,29 @@ def check(run):
         "g++ 12 / clang 14 on x86-64 LP64 with glibc libm execute the harness faithfully; x87 long double (64-bit mantissa) "
         "is the harness-side reference arithmetic, constants come from vf/model.py (pi to 90 digits)",
         "rounding: 'up to the rounding error of the floating type' = don't-care band of 8*eps*(|x*ratio| + |origin offset|) "
-        "+ one denormal around the deciding boundary, eps of the type std::round works in (double for integral reps); inputs "
+        "+ one denormal around the deciding boundary, eps of the type std::round works in (double for integral reps; for long "
+        "double the harness oracle is long double as well: band 16*eps, and a report the exact re-decision places inside "
+        "8*eps is counted, not reported); inputs "
         "whose exact value overflows that type, or the explicit output rep, are outside the statement and only counted",
         "QuantityPoint rounding: values within a factor 2^16 of the working type's largest finite value are outside the "
         "statement (the conversion has to pass through a finer common unit and overflows there: overflow, not rounding)",
         "|round - exact| <= 1/2 does not fix the direction of ties, so std::nearbyint-style ties are not judged (only counted)",
-        "inversion, floating rep: K/x within 4 eps relative; integral rep: exact trunc(K/x); x = 0 never executed",
-        "trig: |lib - f(e_hat)| <= 4 ulp + first/second-order effect of an argument error of eps*|e_hat| (f evaluated in long "
+        "inversion, floating rep: K/x within 4 eps relative; integral rep: exact trunc(K/x); x = 0 never executed; rep float is "
+        "judged only for 10^-30 <= K <= 10^38 (K and every K/x of the sweep are normal floats), other pairs are counted",
+        "explicit-rep inversion with a wider target rep: int64_t target exact trunc(K/x) (needs K <= 10^18), double target "
+        "within 4 eps",
+        "operand pairs with an irrational ratio: X_i = x_i * factor_i in long double (factors from the model, one of them a "
+        "multiple of pi); hypot/arctan2 within 8 eps relative, fmod/remainder within 16 eps*|X1| and not judged (counted) "
+        "where X1/X2 is within 8 eps of a discontinuity or beyond 1/(16 eps), min/max within 8 eps of the selected operand, "
+        "either operand accepted when they differ by less than 8 eps; operands that overflow the working type are counted",
+        "constant evaluation is not part of the statement: a static_assert whose condition is not a constant expression is "
+        "only counted; a false condition or an expression that does not compile at run time either is a violation",
+        "trig: |lib - f(e_hat)| <= 4 ulp + first/second-order effect of an argument error of 2*eps*|e_hat| (f evaluated in long "
         "double); arguments already in radians: bit equality with the std function",
-        "two-argument functions: judged only where both operands, expressed exactly in the model's common unit, are "
-        "representable in the common rep (and exactly convertible to the std function's argument type); other value pairs are "
-        "counted and, for integral reps, never executed; results of converted operands are compared as values (+0 == -0, "
+        "min/max/clamp: judged only where every operand, expressed exactly in the model's common unit, is representable in "
+        "the common rep; hypot/fmod/remainder/arctan2: judged wherever both operands expressed in the common unit are exactly "
+        "representable in the type the std function computes in (representability in the common integral rep is NOT "
+        "required); other value pairs are counted and never executed; results of converted operands are compared as values (+0 == -0, "
         "NaN == NaN), results of unconverted operands bit for bit",
         "min/max/clamp: NaN operands are outside the contract of std::min/std::max/std::clamp (strict weak ordering) and are "
         "only counted; clamp additionally requires lo <= hi",
